@@ -90,6 +90,14 @@ fn gen_group(r: &mut Rng, cfg_bits: u64, v: &Voc, depth: u32) -> Vec<Elem> {
     let shape = r.below(4); let main = gen_bgp(r, v, &vars, k, shape);
     let mv = vars_of(&main);
     out.push(Elem::Bgp(main));
+    if cfg_bits & 128 != 0 && r.chance(1, 2) {
+        // numeric pattern with an arithmetic / comparison filter over its own variable
+        let subj = if !mv.is_empty() && r.chance(2, 3) { mv.iter().find(|x| *x != "?pv").cloned().unwrap_or("?a".into()) } else { "?a".to_string() };
+        out.push(Elem::Bgp(vec![TP { s: subj, p: "<http://e/num>".into(), o: "?n".into() }]));
+        let k = r.below(10);
+        out.push(Elem::Filter(match r.below(4) { 0 => format!("?n > {}", k), 1 => format!("?n <= {}", k), 2 => format!("(?n + 1) >= {}", k), _ => format!("?n != {}", k) }));
+    }
+    if cfg_bits & 256 != 0 && depth == 0 && r.chance(1, 2) { let g = if r.chance(1, 2) { "?g".to_string() } else { format!("<http://e/g{}>", r.below(3)) }; let ka = 1 + r.usize(2); let kb = 1 + r.usize(2); out.push(Elem::Union(vec![Elem::Graph { g, bgp: gen_bgp(r, v, &vars, ka, 0) }], vec![Elem::Bgp(gen_bgp(r, v, &vars, kb, 1))])); }
     if cfg_bits & 2 != 0 && r.chance(1, 2) { let g = if r.chance(1, 2) { "?g".to_string() } else { format!("<http://e/g{}>", r.below(3)) }; let kk = 1 + r.usize(2); let sh = r.below(2); out.push(Elem::Graph { g, bgp: gen_bgp(r, v, &vars, kk, sh) }); }
     if cfg_bits & 4 != 0 && depth == 0 && r.chance(1, 2) { let ka = 1 + r.usize(2); let kb = 1 + r.usize(2); out.push(Elem::Union(vec![Elem::Bgp(gen_bgp(r, v, &vars, ka, 0))], vec![Elem::Bgp(gen_bgp(r, v, &vars, kb, 1))])); }
     if cfg_bits & 8 != 0 && !mv.is_empty() && r.chance(1, 2) { let x = r.pick(&mv).clone(); let f = match r.below(4) { 0 => format!("{} != {}", x, v.n(r)), 1 => format!("{} = {}", x, v.n(r)), 2 if mv.len() > 1 => format!("{} != {}", x, r.pick(&mv)), _ => format!("{} != \"v1\"", x) }; out.push(Elem::Filter(f)); }
@@ -109,7 +117,7 @@ impl Prop for C02 {
     type Case = PlanCase;
     fn id(&self) -> &'static str { "C02" }
     fn expected_counters(&self) -> Vec<&'static str> { vec!["fault.statistics_fresh", "fault.statistics_stale", "fault.statistics_empty", "fault.statistics_adversarial", "fault.plan_all_bind_joins", "fault.plan_all_hash_joins", "fault.plan_all_nested_loop_joins", "fault.plan_mixed_joins", "fault.plan_scan_kind_swapped", "fault.bgp_permuted", "probe.intermediate_result_over_64_rows"] }
-    fn budget(&self, tier: Tier) -> Budget { match tier { Tier::Quick => Budget { runs: 1500, wall_s: 60, recheck: 20 }, Tier::Thorough => Budget { runs: 80_000, wall_s: 1200, recheck: 60 } } }
+    fn budget(&self, tier: Tier) -> Budget { match tier { Tier::Quick => Budget { runs: 3000, wall_s: 60, recheck: 20 }, Tier::Thorough => Budget { runs: 150_000, wall_s: 1200, recheck: 60 } } }
     fn hash_seed(&self, c: &PlanCase) -> u64 { c.hash_seed }
     fn gen(&self, seed: u64, _i: u64, tier: Tier) -> PlanCase {
         let mut r = Rng::sub(seed, "workload"); let mut cfg = Rng::sub(seed, "swarm"); let mut vr = Rng::sub(seed, "variants");
@@ -124,6 +132,7 @@ impl Prop for C02 {
             quads.push((s.clone(), p.clone(), o.clone(), g));
             if r.chance(1, 12) { quads.push((s, p, o, Some(format!("http://e/g{}", r.below(3))))); } // the same triple in several graphs
         }
+        if cfg.chance(1, 2) { for _ in 0..(3 + r.usize(12)) { quads.push((format!("http://e/n{}", r.below(v.nn)), "http://e/num".to_string(), format!("{}", r.below(10)), if r.chance(1, 5) { Some(format!("http://e/g{}", r.below(3))) } else { None })); } }
         let empty_graphs = if r.chance(1, 3) { vec!["http://e/gempty".to_string()] } else { vec![] };
         let stale_extra = (0..r.usize(30)).map(|_| (format!("http://e/n{}", r.below(v.nn)), format!("http://e/p{}", r.below(v.np + 1)), format!("http://e/n{}", r.below(v.nn)))).collect();
         let bits = cfg.next();
@@ -133,7 +142,7 @@ impl Prop for C02 {
         let nsel = 1 + r.usize(av.len().max(1)); let mut vars: Vec<String> = av.clone(); r.shuffle(&mut vars); vars.truncate(if plain { av.len() } else { nsel }); vars.sort();
         if vars.is_empty() { vars.push("?a".into()); }
         let order = !plain && r.chance(1, 2);
-        let agg = if !plain && !order && r.chance(1, 4) && av.len() >= 2 { Some((av[0].clone(), r.pick(&["COUNT", "COUNT", "MIN", "MAX"]).to_string(), av[1].clone())) } else { None };
+        let agg = if !plain && !order && r.chance(1, 3) && av.len() >= 2 { if av.contains(&"?n".to_string()) && av[0] != "?n" { Some((av[0].clone(), r.pick(&["SUM", "AVG", "MIN", "MAX", "COUNT"]).to_string(), "?n".to_string())) } else { Some((av[0].clone(), r.pick(&["COUNT", "COUNT", "MIN", "MAX"]).to_string(), av[1].clone())) } } else { None };
         let use_from = !plain && r.chance(1, 6);
         let query = QSpec { vars, distinct: !plain && r.chance(1, 3), body, order, limit: if order && r.chance(1, 2) { Some(1 + r.usize(6)) } else { None },
             from: if use_from { (0..(1 + r.usize(2))).map(|_| format!("http://e/g{}", r.below(3))).collect() } else { vec![] }, from_named: if use_from && r.chance(1, 2) { vec![format!("http://e/g{}", r.below(3))] } else { vec![] }, agg };
